@@ -32,7 +32,7 @@ REAL = ["bec2format.bec2file (InitEccAuthBlock, EccEncryptor, EccDecryptor)", "b
         "ecdsa (keys, ecdh, ellipticcurve, util.randrange)", "pyaes"]
 STUBS = ["RNG: SimRng behind os.urandom shims", "key generation observer (register_PrivateEccKey)",
          "device model: RefP256 + RefAES", "openssl binary (thorough tier sample)"]
-PROBES = ["runs-with-assertions-disabled", "invalid-block-presented-twice", "pack-after-unpack-same-object", "subclass-with-own-default-keys-used-first", "selector-changed-between-packs", "file-level-pack", "ext-encryptors-not-a-list", "shared-encryptor-two-threads", "keystore-decoys", "default-recipient", "selector-nonzero-default", "edge-recipient-scalar", "edge-ephemeral-scalar",
+PROBES = ["opened-block-packed-without-recipient", "runs-with-assertions-disabled", "invalid-block-presented-twice", "pack-after-unpack-same-object", "subclass-with-own-default-keys-used-first", "selector-changed-between-packs", "file-level-pack", "ext-encryptors-not-a-list", "shared-encryptor-two-threads", "keystore-decoys", "default-recipient", "selector-nonzero-default", "edge-recipient-scalar", "edge-ephemeral-scalar",
           "randrange-retry", "session-key-trailing-zero", "point-off-curve-rejected", "point-coordinate-ge-p",
           "point-zero", "point-negated-still-on-curve", "openssl-agrees"]
 THOROUGH_ONLY_PROBES = ["openssl-agrees"]
@@ -357,6 +357,24 @@ def run(case):
                     out.fail("C09.device", "pack-after-unpack-wrong-key", "a block packed with the EccDecryptor object "
                              "that had just unpacked another block is not addressed to the recipient: the recipient "
                              "recovers %s, session key is %s" % (k3r.hex(), skey2.hex()))
+            # read, then save again without naming a recipient: the block object that came out of unpack (opened with
+            # the test key) packs to BALTECH's published key of its selector
+            try:
+                skey4 = bytes(b ^ 0xC3 for b in skey)
+                obs.generated.clear()
+                raw4 = blk.pack(skey4, [])
+                k4 = prov.device_unwrap({"t": "ecc", "sel": sel, "recip": None}, 3, raw4,
+                                        eph_scalar=obs.generated[-1][0])
+            except Exception as e:
+                out.fail("C09.device", "repack-default-" + type(e).__name__, "a block that was opened with a private key "
+                         "and packed again without recipient is not addressed to the published key of selector %d: %s"
+                         % (sel, e))
+            else:
+                out.probes["opened-block-packed-without-recipient"] += 1
+                if k4 != skey4:
+                    out.fail("C09.device", "repack-default-wrong-key", "a block that was opened with a private key and "
+                             "packed again without recipient: the published key of selector %d recovers %s, session "
+                             "key is %s" % (sel, k4.hex(), skey4.hex()))
             # ---- faulted arm ----
             if case["damage"]:
                 dm = case["damage"]
